@@ -25,6 +25,7 @@ def gen_shape(rng):
     linear = rng.random() < 0.25
     shape = gen.random_shape(rng, recursive=True, linear=linear, n_nts=(1, 3), rules_per_nt=(1, 2), n_nodes=(0, 1), n_edges=(1, 4),
                              max_arity=2, start_arity=(0, 1), dom_sizes=(1, 2), p_isolated=0.1, p_ruleless=0.0,
+                             p_rep_ext=0.3 if rng.random() < 0.4 else 0.0,
                              weights=lambda r: r.choice(REAL_W), max_cells=64)
     shape['vweights'] = {i: [rng.choice(VIT_W) for _ in w] for i, w in shape['weights'].items()}
     shape['bweights'] = {i: [float(rng.random() < 0.7) for _ in w] for i, w in shape['weights'].items()}
@@ -68,6 +69,29 @@ def gen_linear_system(rng):
     return shape
 
 
+def gen_pattern_growing(rng):
+    """a transitive-closure grammar  S -> X(a,b);  X(i,i) -> [p(i)];  X(i,j) -> X(i,k) t(k,j)  (sometimes X(i,j) -> t(i,k) X(k,j)):
+    the value of X is a DIAGONAL tensor after one step of fixed-point iteration (repeated external node) and dense from the second
+    step on, so the sparsity pattern of an iterate changes size and `x0.copy_(x1)` cannot reuse x0's storage"""
+    dom = rng.choice([2, 2, 3])
+    terms, weights = [[0, 0]], {0: [rng.choice([0.0, 0.0625, 0.125, 0.25, 0.03125]) for _ in range(dom * dom)]}
+    rules = [dict(lhs=0, nodes=[0, 0], ext=[], edges=[('n', 1, [0, 1])])]
+    if rng.random() < 0.5:
+        terms.append([0]); weights[1] = [rng.choice([1.0, 0.5, 0.25]) for _ in range(dom)]
+        rules.append(dict(lhs=1, nodes=[0], ext=[0, 0], edges=[('t', 1, [0])]))
+    else:
+        rules.append(dict(lhs=1, nodes=[0], ext=[0, 0], edges=[]))
+    if rng.random() < 0.5:
+        rules.append(dict(lhs=1, nodes=[0, 0, 0], ext=[0, 1], edges=[('n', 1, [0, 2]), ('t', 0, [2, 1])]))
+    else:
+        rules.append(dict(lhs=1, nodes=[0, 0, 0], ext=[0, 1], edges=[('t', 0, [0, 2]), ('n', 1, [2, 1])]))
+    rng.shuffle(rules)
+    shape = dict(nls=[dom], terms=terms, nts=[[], [0, 0]], start=0, rules=rules, weights=weights)
+    shape['vweights'] = {i: [rng.choice(VIT_W) for _ in w] for i, w in weights.items()}
+    shape['bweights'] = {i: [float(x != 0) for x in w] for i, w in weights.items()}
+    return shape
+
+
 def sccs_and_linearity(shape):
     """SCCs of the nonterminal graph and whether every rule has <= 1 rhs edge of its own SCC"""
     n = len(shape['nts'])
@@ -96,7 +120,7 @@ def run(ctx):
     attempts = 0
     while done < n and attempts < 30 * n:
         attempts += 1
-        shape = gen_linear_system(ctx.rng) if attempts % 3 == 0 else gen_shape(ctx.rng)
+        shape = gen_pattern_growing(ctx.rng) if attempts % 7 == 0 else gen_linear_system(ctx.rng) if attempts % 3 == 0 else gen_shape(ctx.rng)
         recursive, linear = sccs_and_linearity(shape)
         if not recursive:
             continue
@@ -219,8 +243,23 @@ def run_real(ctx, case, shape, linear):
         return
     # find a certified upper bound by inflating lo
     hi = None
-    for eta in (1e-9, 1e-6, 1e-3, 1e-1):
-        cand = [[float(c) * (1 + eta) + eta for c in v] if v is not None else None for v in lo]
+    # level of a nonterminal = length of the longest chain of components below it: a nonterminal that SUMS many entries of a lower one
+    # (S -> X(a,b)) needs a larger absolute inflation than the entries it sums, so the inflation grows geometrically with the level
+    nn = len(shape['nts'])
+    adj = {i: {j for r in shape['rules'] if r['lhs'] == i for k_, j, _ in r['edges'] if k_ == 'n'} for i in range(nn)}
+    reach = {i: {i} for i in range(nn)}
+    for _ in range(nn):
+        for i in range(nn):
+            reach[i] |= set().union(*[reach[j] for j in adj[i]]) if adj[i] else set()
+    level = {}
+    def lev(i, seen=()):
+        if i not in level:
+            below = [j for j in reach[i] if i not in reach[j]]
+            level[i] = 1 + max([lev(j) for j in below], default=-1)
+        return level[i]
+    for eta0 in (1e-9, 1e-6, 1e-3, 1e-1, 1e-10, 1e-7, 1e-4):
+        K = 1.0 if eta0 in (1e-9, 1e-6, 1e-3, 1e-1) else 100.0
+        cand = [[float(c) * (1 + eta0 * K ** lev(X)) + eta0 * K ** lev(X) for c in v] if v is not None else None for X, v in enumerate(lo)]
         enc = enc_list(cand, lambda v: 'none' if v is None else 'some ' + enc_list(v, enc_ext))
         r2 = ctx.driver.ask(f'C02.enclose {gen.enc_shape(shape)} {enc} 1 60')
         if r2.split()[0] == 'T':
